@@ -56,6 +56,7 @@ PROP = [  # substring of the commit subject -> property whose check found it, wh
  ("Cancel and Close of a query are safe", "C13", "Cancel() from a second goroutine parked between the nil check and the call while the caller's Close() ran after Exec returned: nil-pointer panic on the caller's goroutine (found once the automatic yield points covered cancel calls)"),
  ("overtakes the start of Exec", "C14", "Cancel() issued after Exec was called but before Exec stored its cancel function was dropped; the query ran to completion (schedule: main parked in front of the new mutex, canceller first)"),
  ("unary minus rejects equal output labels", "C01", "-{__name__=~\"m.*\"} with samples at different steps: reference fails, engine merged"),
+ ("topk/bottomk over equal labels from two partitions", "C19", "distributed topk(2, abs({__name__=~\"m1|m3\"})), m1 and m3 in different partitions, both with a sample at the last step: one result series {} with two points at t=21000 (timestamps-not-increasing; sweep 20, seed 13, case C19-quick-s13-i9219)"),
  ("range functions fail on equal output labels", "C03", "delta({__name__=~\"m.*\"}[30s]) with samples of the two series at different steps"),
 ]
 log = subprocess.run("git -C /repo log --reverse --format='%h %s'", shell=True, capture_output=True, text=True).stdout.strip().split("\n")
